@@ -138,7 +138,7 @@ def check(case, ctx):
             for ig in (False, True):
                 st, got = lib.call(p.find_subsequence_indices, t, q, ig)
                 ctx.evals += 1
-                if st != 'ok' or list(got) != exp:
+                if st != 'ok' or sorted(got) != exp:
                     ctx.fail('find', exp, got, call=['find_subsequence_indices', t, q, ig])
             st, got = lib.call(p.is_subsequence, q, t, True)
             ctx.evals += 1
@@ -180,7 +180,7 @@ def check(case, ctx):
                             nocc += len(exp)
                             st, got = lib.call(p.find_subsequence_indices, ts, qs, ig)
                             ctx.evals += 1
-                            if st != 'ok' or list(got) != exp:
+                            if st != 'ok' or sorted(got) != exp:
                                 ctx.fail('find-mod', exp, got, call=['find_subsequence_indices', ts, qs, ig])
                         for acc in (False, True):
                             for ig in (False, True):
